@@ -53,9 +53,15 @@ def jobs(tier):
 
 
 def build(w, tname, module, disp, cname):
+    """the operator as assembled the *second* time on this mesh with the same arguments: a solution on the larger grid and on
+    the reduced grid are compared after any number of assemblies (time loops rebuild their terms), so state a builder leaves
+    on the mesh must not change what it returns"""
     coef = w.face_variable(cname)
     if tname == 'tvd':
-        return w.call(module, disp, coef, w.cell_variable('phi'), OpaqueFn('FL'))
+        phi = w.cell_variable('phi')
+        w.call(module, disp, coef, phi, OpaqueFn('FL'))
+        return w.call(module, disp, coef, phi, OpaqueFn('FL'))
+    w.call(module, disp, coef)
     return w.call(module, disp, coef)
 
 
